@@ -108,7 +108,7 @@ def merge_case(b, l, r, args, props):
     if 'C04' in props:
         err = validate_strict(merged)
         if err:
-            out.append(('C04', 'invalid:' + classify_invalid(merged, err, (b, l, r)), 'merged notebook (minor %s) does not validate: %s'
+            out.append(('C04', 'invalid:' + classify_invalid(merged, err, (b, l, r), bool(getattr(args, 'ignore_transients', True)) if args is not None else True), 'merged notebook (minor %s) does not validate: %s'
                         % (merged.get('nbformat_minor'), err)))
     if 'C09' in props or 'C11' in props:
         dplain = to_plain(decisions)
@@ -196,6 +196,40 @@ def wf_relaxed(base, dd):
     return specs.wf_deep(base, dd3) if dd3 else True
 
 
+def _strip_transients(cell):
+    c = copy.deepcopy(to_plain(cell))
+    c.pop('execution_count', None)
+    for o in c.get('outputs', []) or []:
+        if isinstance(o, dict):
+            o.pop('execution_count', None)
+    md = c.get('metadata')
+    if isinstance(md, dict):
+        for k in ('collapsed', 'scrolled', 'autoscroll'):
+            md.pop(k, None)
+    return c
+
+
+def _retype_vs_transient_only(inputs, cell):
+    """True if `cell` (of the merged notebook) is a base cell that one side retyped while the other side changed nothing in it but
+    transient fields (re-ran it, toggled collapsed/scrolled)."""
+    if not inputs:
+        return False
+    b, l, r = inputs
+    for retyper, other in ((l, r), (r, l)):
+        for k, bc in enumerate(b.get('cells', [])):
+            def find(side):
+                if bc.get('id') is not None:
+                    return next((c for c in side.get('cells', []) if c.get('id') == bc.get('id')), None)
+                return side['cells'][k] if k < len(side.get('cells', [])) else None
+            rc, oc = find(retyper), find(other)
+            if rc is None or oc is None or rc.get('cell_type') == bc.get('cell_type') or oc.get('cell_type') != bc.get('cell_type'):
+                continue
+            same_cell = (cell.get('id') is not None and cell.get('id') == bc.get('id')) or cell.get('source') in (bc.get('source'), rc.get('source'))
+            if same_cell and canon(_strip_transients(oc)) == canon(_strip_transients(bc)):
+                return True
+    return False
+
+
 def _retyped_cells(inputs):
     """(ids, sources) of base cells whose cell_type one side changed (same id; without ids: same position and same source)"""
     ids, sources = set(), set()
@@ -215,7 +249,7 @@ def _retyped_cells(inputs):
     return ids, sources
 
 
-def classify_invalid(merged, err, inputs=None):
+def classify_invalid(merged, err, inputs=None, ignore_transients=False):
     """class of a schema violation, specific enough to identify a recorded finding by its cause (the shape of the inputs), not
     just by the wording of the schema error"""
     minor = merged.get('nbformat_minor', 0)
@@ -246,6 +280,9 @@ def classify_invalid(merged, err, inputs=None):
         # the recorded finding: a side changed the cell_type of an existing cell
         if (cell.get('id') is not None and cell.get('id') in ids) or (ids == {None} or (not ids and sources)) and cell.get('source') in sources \
                 or (None in ids and cell.get('source') in sources):
+            # ... and the other side really edited it; with transients ignored, a side that only re-ran the cell does not count
+            if ignore_transients and _retype_vs_transient_only(inputs, cell):
+                return 'retype-vs-rerun'
             return 'retype-key'
         return 'code-keys-misplaced'
     m = re.search(r"^'output_type' is a required property at /cells/(\d+)/outputs/(\d+)$", err)
